@@ -828,15 +828,18 @@ def rule_dfg(ctx):
                        "path takes the `has blocks` branch=%s but %s the block loop" % (hb[-1], "runs" if has_loop else "skips"))
                 continue
             key = (r, has_loop)
+            # data-dependent branches: on the branch where a term is known to be 0 both sides are compared under that equation
+            zeros = [a[0][1] for a in assume if a[0][0] == "nonzero" and (a[1] == a[0][2])]
             try:
-                got = HB.nf(term, f.rtype.bits)
-                want = HB.nf(ref(r, has_loop), f.rtype.bits)
+                got = HB.subst_zero(HB.nf(term, f.rtype.bits), zeros, f.rtype.bits)
+                want = HB.subst_zero(HB.nf(ref(r, has_loop), f.rtype.bits), zeros, f.rtype.bits)
             except AnalysisError as e:
                 ctx.ob("dfg", f, f.node, "%s: residue %d" % (name, r), "normal form computable", None, str(e))
                 continue
             d = HB.diff(got, want)
-            seen[key] = d is None
-            ctx.ob("dfg", f, f.node, "%s: len %% %d == %d, %s" % (name, B, r, "with whole blocks" if has_loop else "no whole block"),
+            seen[key] = seen.get(key, True) and d is None
+            ztxt = (", when %s == 0" % " and ".join(HB.show(z)[:40] for z in zeros)) if zeros else ""
+            ctx.ob("dfg", f, f.node, "%s: len %% %d == %d, %s%s" % (name, B, r, "with whole blocks" if has_loop else "no whole block", ztxt),
                    "the result term equals the published %s on this path (Herbrand normal form modulo 2^%d)" % ("FastHash64" if name == "fasthash64" else "MurmurHash3_x86_32", f.rtype.bits),
                    d is None, "" if d is None else d)
         for r in range(B):
